@@ -6,6 +6,7 @@ import (
 	"math/rand"
 	"os"
 	"sort"
+	"strings"
 	"time"
 
 	"verif/harness/cbsim"
@@ -33,6 +34,38 @@ func storeWrites(tr *Trace) []storeWrite {
 				out = append(out, storeWrite{r.T, vb, t.seq, t})
 			}
 		}
+	}
+	return out
+}
+
+// fileStateWrites: the file back end rewrites the whole file from the dump of every save, dirty or not. A write, for the
+// purposes of "what does the store hold", is every entry of a completed save that differs from what the file held before
+// (also entries of vBuckets the member does not own at that time, which the dump carries along).
+func fileStateWrites(tr *Trace) []storeWrite {
+	var out []storeWrite
+	cur := map[int]tuple{}
+	for vb, ps := range tr.Spec.PreStore {
+		cur[vb] = tuple{ps[0], ps[1], ps[2], ps[3]}
+	}
+	ok := map[uint64]bool{}
+	for _, r := range tr.Log {
+		if r.K == "md.save.ret" && r.S == "" {
+			ok[r.A] = true
+		}
+	}
+	for _, r := range tr.Log {
+		if r.K != "md.state" || !ok[r.A] {
+			continue
+		}
+		t := tuple{r.D, r.Seq, r.B, r.C}
+		if prev, has := cur[r.VB]; has && prev == t {
+			continue
+		}
+		cur[r.VB] = t
+		if t.seq == 0 {
+			continue // an empty entry: "no checkpoint"
+		}
+		out = append(out, storeWrite{r.T, r.VB, r.Seq, t})
 	}
 	return out
 }
@@ -108,7 +141,11 @@ func OracleNeverAhead(tr *Trace) []Finding {
 			}
 		}
 	}
-	for _, w := range storeWrites(tr) {
+	writes := storeWrites(tr)
+	if tr.Spec.Backend == "file" {
+		writes = append(writes, fileStateWrites(tr)...)
+	}
+	for _, w := range writes {
 		ok := false
 		for _, r := range ix.resume[w.VB] {
 			if r.t < w.T && r.seq == w.Seq {
@@ -301,6 +338,27 @@ func c01Spec(rng *rand.Rand, i int) *SessSpec {
 	return sp
 }
 
+// c01Regroup: file back end (one file for every vBucket ever owned), dynamic membership: the member gives its range up
+// for a disjoint one and later takes everything. The file must never name a position nobody settled - also not for the
+// vBuckets given up, whose servers have moved on meanwhile.
+func c01Regroup(rng *rand.Rand, j int) *SessSpec {
+	n := []int{4, 6, 8}[rng.Intn(3)]
+	sp := &SessSpec{NumVB: n, Nodes: 1, AckSeed: rng.Int63(), Backend: "file", Membership: "dynamic", FirstInfo: [2]int{1, 2}, API: true, PNow: 0.4, PDefer: 0.6, Backlog: map[int][][]ItemSpec{},
+		AutoReset: []string{"latest", "latest", ""}[j%3]}
+	o := &HistOpts{NumVB: n, PSystem: 0.05, PSeqAdv: 0.1, MaxItems: 4}
+	ctr := 0
+	for vb := 0; vb < n; vb++ {
+		sp.Backlog[vb] = append(sp.Backlog[vb], genSnap(rng, o, &ctr))
+	}
+	lo, hi := rng.Intn(n/2), n/2+rng.Intn(n/2)
+	// some deliveries of the first range stay unacknowledged: its servers are ahead of the stored positions when it is given up
+	sp.Steps = []Step{{Op: "barrier"}, {Op: "append", VB: lo, Items: genSnap(rng, o, &ctr)}, {Op: "append", VB: lo, Items: genSnap(rng, o, &ctr)}, {Op: "barrier"}, {Op: "commit"},
+		{Op: "membership", N: 2, VB: 2}, {Op: "waitrebalance", N: 1}, {Op: "barrier"},
+		{Op: "append", VB: lo, Items: genSnap(rng, o, &ctr)}, {Op: "append", VB: hi, Items: genSnap(rng, o, &ctr)}, {Op: "barrier"}, {Op: "commit"},
+		{Op: "membership", N: 1, VB: 1}, {Op: "waitrebalance", N: 2}, {Op: "barrier"}, {Op: "commit"}}
+	return sp
+}
+
 // restartSpec builds the second session of a crash/restart pair: same history, the store as it was in
 // the chosen crash state, every delivery acknowledged.
 func restartSpec(tr *Trace, st map[int]tuple, seed int64) *SessSpec {
@@ -359,6 +417,10 @@ func init() {
 				}
 				out = append(out, sc)
 			}
+			xr := rand.New(rand.NewSource(seed*53 + 3))
+			for j := 0; j < n/25; j++ {
+				out = append(out, drv.Scenario{Kind: "regroup", Seed: seed, Params: mustJSON(c01Regroup(xr, j)), TimeoutS: 120, Solo: true})
+			}
 			return out
 		},
 		Run: func(sc drv.Scenario) drv.Result {
@@ -369,6 +431,19 @@ func init() {
 			tr := RunSession(&sp)
 			if tr.StartErr != "" {
 				return drv.Result{Verdict: drv.Inconclusive, Detail: tr.StartErr}
+			}
+			if sc.Kind == "regroup" {
+				fs := OracleNeverAhead(tr)
+				for _, f := range OracleDelivery(tr) {
+					if f.Prop == "C03" && f.Clause == "list" && strings.HasSuffix(f.Key, "missing") {
+						fs = append(fs, Finding{"C01", "restart", "C01/regroup-skip", "after the member took the vBucket back: " + f.Detail})
+					}
+				}
+				cycles := tr.count("eh.ARE")
+				if cycles < 2 {
+					return drv.Result{Verdict: drv.Inconclusive, Detail: fmt.Sprintf("only %d of 2 rebalances observed", cycles)}
+				}
+				return sessionResult("C01", tr, fs, true, map[string]any{"kind": "regroup", "vbuckets": sp.NumVB, "auto_reset": sp.AutoReset, "file_entries_written": len(fileStateWrites(tr)), "rebalances": cycles})
 			}
 			fs := OracleNeverAhead(tr)
 			cf, nstates := OracleCrashStates(tr)
